@@ -2,6 +2,7 @@ package dagaz
 
 import (
 	"context"
+	"math"
 
 	"github.com/aukilabs/go-tooling/pkg/errors"
 	"github.com/aukilabs/hagall-common/messages/dagazpb"
@@ -57,6 +58,20 @@ func (m *Module) HandleMsg(ctx context.Context, respond hwebsocket.ResponseSende
 func (m *Module) HandleDisconnect() {
 }
 
+// isFinitePoint reports whether p is set and all its coordinates are finite
+// numbers.
+func isFinitePoint(p *dagazpb.Point) bool {
+	if p == nil {
+		return false
+	}
+	for _, v := range []float32{p.X, p.Y, p.Z} {
+		if math.IsNaN(float64(v)) || math.IsInf(float64(v), 0) {
+			return false
+		}
+	}
+	return true
+}
+
 func (m *Module) HandleDagazQuadSample(ctx context.Context, msg hwebsocket.Msg) error {
 	var newQuadSample dagazpb.DagazQuadSample
 	if err := msg.DataTo(&newQuadSample); err != nil {
@@ -71,6 +86,10 @@ func (m *Module) HandleDagazQuadSample(ctx context.Context, msg hwebsocket.Msg) 
 	}
 
 	for _, newQuad := range newQuadSample.Samples {
+		if newQuad == nil || !isFinitePoint(newQuad.Center) || !isFinitePoint(newQuad.Extents) {
+			// Malformed sample: nothing to insert.
+			continue
+		}
 		quad := NewQuadFromProtobuf(newQuad)
 		m.state.SpatialPartition.InsertQuad(quad)
 	}
@@ -91,8 +110,11 @@ func (m *Module) HandleDagazGetGroundPlane(ctx context.Context, respond hwebsock
 			WithTag("msg_type", msg.Type)
 	}
 
-	ray := NewRayFromProtobuf(req.Ray)
-	quadHit, _ := m.state.SpatialPartition.IntersectQuad(ray)
+	var quadHit *Quad
+	if req.Ray != nil && isFinitePoint(req.Ray.From) && isFinitePoint(req.Ray.To) {
+		ray := NewRayFromProtobuf(req.Ray)
+		quadHit, _ = m.state.SpatialPartition.IntersectQuad(ray)
+	}
 
 	if quadHit == nil {
 		// create an invalid quad to be able to have a response:
@@ -126,7 +148,10 @@ func (m *Module) HandleDagazGetRegion(ctx context.Context, respond hwebsocket.Re
 			WithTag("msg_type", msg.Type)
 	}
 
-	regionQuads := m.state.SpatialPartition.GetRegion(NewVector3fFromProtobuf(req.Min), NewVector3fFromProtobuf(req.Max))
+	var regionQuads []*Quad
+	if isFinitePoint(req.Min) && isFinitePoint(req.Max) {
+		regionQuads = m.state.SpatialPartition.GetRegion(NewVector3fFromProtobuf(req.Min), NewVector3fFromProtobuf(req.Max))
+	}
 	regionQuadsProtobuf := make([]*dagazpb.Quad, len(regionQuads))
 	for i := 0; i < len(regionQuads); i++ {
 		regionQuadsProtobuf[i] = regionQuads[i].ToProtobuf()
